@@ -208,6 +208,44 @@ func TestC10(t *testing.T) {
 	})
 }
 
+// TestC10Ex: Flush right after the token-limit block cut: incompressible data whose size is swept
+// around the points where 32768 tokens are reached (32768 bytes at one literal per token, 65536 at two).
+func TestC10Ex(t *testing.T) {
+	count := 0
+	var sizes []int
+	for n := 32740; n <= 32800; n++ {
+		sizes = append(sizes, n)
+	}
+	for n := 65490; n <= 65560; n++ {
+		sizes = append(sizes, n)
+	}
+	for _, n := range sizes {
+		for _, set := range []PSetting{
+			{Pkg: "flate", WSetting: WSetting{Ctor: "new", Level: 1}}, {Pkg: "flate", WSetting: WSetting{Ctor: "new", Level: 2}},
+			{Pkg: "flate", WSetting: WSetting{Ctor: "4k", Level: 2}}, {Pkg: "gzip", WSetting: WSetting{Ctor: "new", Level: -1}},
+		} {
+			for pre := 0; pre < 2; pre++ {
+				c := C10Case{Set: set, Data: gen.Recipe{Segs: []gen.Seg{{Kind: "rand", N: n + 10, A: 256, Seed: uint64(n)}}}}
+				if pre == 1 {
+					c.Ops = []gen.Op{{K: "W", N: 5}, {K: "F"}, {K: "W", N: n - 5}, {K: "F"}, {K: "W", N: 10}}
+				} else {
+					c.Ops = []gen.Op{{K: "W", N: n}, {K: "F"}, {K: "W", N: 10}}
+				}
+				done := begin("C10", c)
+				labels, nt, err := checkC10(c)
+				done()
+				if err != nil {
+					saveLast("C10", c, err)
+					t.Fatalf("C10 violated (flush just past the token limit): %v", err)
+				}
+				stats.Record("C10", stats.Digest(c), nt, append(labels, "flush-just-past-token-limit"), func() any { return c })
+				count++
+			}
+		}
+	}
+	stats.Exhaustive("C10", "incompressible data of n bytes, n in [32740,32800] and [65490,65560], Flush, 10 more bytes; 4 settings; with and without an earlier Flush", count)
+}
+
 func init() {
 	replayers["C10"] = func(raw json.RawMessage) error {
 		var c C10Case
